@@ -427,10 +427,11 @@ Definition watch_close (st : store) (n : nat) : store * out :=
    A watch that existed before the restore keeps a pointer to its dropped buffer: its freeBuf only
    decrements that orphan's counter (the map entries are removed only "if they still belong to this
    buffer"), so it can no longer touch the maps - modelled by setting [w_freed].
-   Subscription.snapshotIndex (f559b0f: batches with 0 < index <= the end-of-snapshot index are
-   skipped inside Subscription.Next) is not a separate field: the snapshot batch carries the same
-   index, is read before the framing item and sets Watch.idx, whose own filter in nextEvent already
-   skips exactly those batches. *)
+   Subscription.snapshotIndex (f559b0f, 716731d: inside Subscription.Next a batch with
+   0 < index < the end-of-snapshot index is skipped; one AT that index is handed on) is not a
+   separate field: the snapshot batch carries the same index as the framing item, is read before it
+   and sets Watch.idx to it, and Watch.nextEvent's own filter (index <= Watch.idx) then skips every
+   batch the subscription would skip, and the one at the snapshot's own index as well. *)
 Definition restore_table (l : list resource) : table := fold_left (fun t r => upsert r t) l [].
 
 Definition force_close (w : watch) : watch :=
